@@ -115,3 +115,27 @@ func VHPubCtlConc() {
 	}
 	vCover("ctlconc done")
 }
+
+// VHPubPubConc: two publishers at once on one PubSub, each with any of the six publish
+// variants and its own event; receivers run throughout. Nothing may panic, both calls return,
+// and every subscriber gets each event exactly once.
+func VHPubPubConc() {
+	s := c10newOpt(1+vChoose("nsub", vParam("SUBS")), false)
+	e1, e2 := vInt("ev"), vInt("ev")
+	vAssume(e1 != e2)
+	s.receivers()
+	v1, v2 := vChoose("variant1", 6), vChoose("variant2", 6)
+	vGo(func() { s.publish(v1, []int{e1}) })
+	vGo(func() { s.publish(v2, []int{e2}) })
+	vAssert(vWait() || true, "quiescence")
+	n := len(s.subs)
+	vAssert(vThreadDone(n) && vThreadDone(n+1), "both publish calls return")
+	for k := range s.subs {
+		vAssert(c10count(s.logs[k], e1) == 1, "two publishers at once: every subscriber gets the first publisher's event exactly once")
+		vAssert(c10count(s.logs[k], e2) == 1, "two publishers at once: every subscriber gets the second publisher's event exactly once")
+		vAssert(!s.closed[k], "publishing closes nothing")
+	}
+	if (v1 == pubWait || v1 == pubSliceWait) && (v2 == pubWait || v2 == pubSliceWait) {
+		vCover("pubpub: two Wait-variant publishers at once")
+	}
+}
